@@ -242,6 +242,12 @@ func (P *Program) runPath(job *Job, fn *ssa.Function, item WorkItem, sol *smt.So
 	defer func() {
 		r := recover()
 		it.sched.killAll()
+		// models for uncaught panics / fatal errors must be fetched while the path scope is still open
+		var lateModel smt.Model
+		switch r.(type) {
+		case targetPanic, fatalError:
+			lateModel = p.currentModelSafe()
+		}
 		sol.EndPath()
 		pr.Trace = p.trace
 		pr.Steps = p.steps
@@ -276,12 +282,12 @@ func (P *Program) runPath(job *Job, fn *ssa.Function, item WorkItem, sol *smt.So
 			pr.Status = StViolation
 			pr.AssertID = "panic"
 			pr.Msg = "uncaught panic: " + panicString(r.v) + " @ " + r.stack
-			pr.Model = p.currentModelSafe()
+			pr.Model = lateModel
 		case fatalError:
 			pr.Status = StViolation
 			pr.AssertID = "fatal"
 			pr.Msg = "fatal: " + r.msg
-			pr.Model = p.currentModelSafe()
+			pr.Model = lateModel
 		case crashSignal:
 			pr.Status = StInternal
 			pr.Msg = "crash signal escaped the harness"
